@@ -320,6 +320,7 @@ def run(R):
                     okins = True
             R.ob("C03-R7", "every-quad-kept", "every quad produced by instantiate_quad is inserted into the result, under no condition other than "
                  "`instantiation yielded a quad`", okins, where=it.where(c.ln))
+    r8(R)
     # allocate_blank_node retries until the label is unused and encodes that very label
     ab = R.body("C03-R4", "execute_query::allocate_blank_node", crate="kolibrie")
     if ab is not None:
@@ -389,3 +390,112 @@ def _iter_chain(b, c, kind):
             return chain, None
         return chain, None
     return chain, None
+
+
+def r8(R):
+    """the request's own PREFIX declarations win over remembered ones"""
+    from lib.taint import Taint
+    prog = R.prog
+    R.rule("C03-R8", "an operation runs under its own prologue: the prefix map a request's templates, DATA block and WHERE pattern are resolved "
+                     "with contains the request's PREFIX declarations, written over whatever the database remembers from earlier requests and "
+                     "loaded files - request declarations are added with an overwriting operation (`extend`, `insert`), never through "
+                     "`entry(..).or_insert*` or under an `is it absent` test, and nothing remembered is written over them afterwards. Otherwise an "
+                     "update that re-declares a known label inserts, deletes and matches in the old namespace")
+    b = R.body("C03-R8", "execute_query::prepare_extensions", crate="kolibrie")
+    if b is None:
+        return
+    R.saw(b)
+    fam = prog.family(b.key)
+    T = Taint(prog, b)
+    nreq = nst = 0
+    for x in fam:
+        for bb, i, pl, rv, st in x.assigns():
+            for pp, kind in F.rv_places(rv):
+                for e in pp["p"]:
+                    if e["k"] == "field" and e.get("n") == "prefixes":
+                        if (e.get("adt") or "").endswith("CombinedQuery"):
+                            T.seed(x, pl["l"], "request")
+                            nreq += 1
+                        elif (e.get("adt") or "").endswith("SparqlDatabase"):
+                            T.seed(x, pl["l"], "stored")
+                            nst += 1
+    T.run()
+    R.ob("C03-R8", "reads", "prepare_extensions reads the request's prologue and the remembered prefixes (%d / %d reads)" % (nreq, nst), nreq >= 1 and nst >= 1, where=b.where())
+    # the returned map
+    ret = None
+    for bb, i, pl, rv, st in b.assigns():
+        if pl["l"] == 0 and rv["rv"] == "aggregate" and rv.get("variant") == "Ok" and rv["ops"]:
+            ret = b.alias_root(rv["ops"][0])
+            if ret is None and F.op_place(rv["ops"][0]):
+                ret = F.op_place(rv["ops"][0])["l"]
+            R.ob("C03-R8", "returned-has-request", "the prefix map handed to the operation contains the request's declarations", "request" in T.get(b, ret) if ret is not None else False,
+                 where=b.where(st.get("ln")))
+    # how request declarations are written into prefix maps
+    soft, guarded, hard = [], [], []
+    for x in fam:
+        for c in x.calls():
+            nm = c.name()
+            if nm in ("or_insert", "or_insert_with", "or_insert_with_key", "or_default", "try_insert") and "HashMap<alloc::string::String, alloc::string::String" in " ".join(
+                    x.local_ty(F.op_place(a)["l"]) for a in c.args if F.op_place(a)) or (nm in ("or_insert", "or_insert_with", "or_insert_with_key") and "Entry<" in x.local_ty((F.op_place(c.args[0]) or {"l": 0})["l"]) and "String, alloc::string::String" in x.local_ty((F.op_place(c.args[0]) or {"l": 0})["l"])):
+                labs = set()
+                for a in c.args:
+                    labs |= T.op_taint(x, a)
+                    cb = T._closure_of(x, a)
+                    if cb is not None:
+                        labs |= T.t.get((cb.key, 0), set())
+                        for idx, _nm in cb.r.get("upvars", []):
+                            labs |= T.t.get((cb.key, "up", idx), set())
+                if "request" in labs:
+                    soft.append((x, c))
+            if nm in ("extend", "insert") and len(c.args) >= 2:
+                rty = x.local_ty((F.op_place(c.args[0]) or {"l": 0})["l"])
+                if "HashMap<alloc::string::String, alloc::string::String" not in rty:
+                    continue
+                labs = set()
+                for a in c.args[1:]:
+                    labs |= T.op_taint(x, a)
+                if "request" in labs:
+                    cds = [cd for cd in G.conditions(x, c.bb) if cd.get("kind") == "call" and cd["call"].name() in ("contains_key", "get", "is_none", "is_some")]
+                    (guarded if cds else hard).append((x, c))
+    R.ob("C03-R8", "overwrites", "the request's declarations are written with an overwriting operation (extend / insert: %d; entry().or_insert*: %d; under an absence test: %d)"
+         % (len(hard), len(soft), len(guarded)), len(hard) >= 1 and not soft and not guarded, where=(soft or guarded or hard or [(b, None)])[0][0].where((soft or guarded or hard)[0][1].ln if (soft or guarded or hard) else None),
+         detail=None if (len(hard) >= 1 and not soft and not guarded) else "a label the database already remembers keeps its old IRI: `PREFIX ex: <http://two.example/>` in the "
+         "second request is ignored, the operation runs in the namespace of the first")
+    # nothing remembered is written over the request's declarations in the returned map
+    def src_of(op, depth=0):
+        """'request' / 'stored' when the operand is (a copy / an iteration of) one of the two prefix maps"""
+        if depth > 8:
+            return None
+        pl = F.op_place(op)
+        if pl is None:
+            return None
+        for e in pl["p"]:
+            if e["k"] == "field" and e.get("n") == "prefixes":
+                return "request" if (e.get("adt") or "").endswith("CombinedQuery") else ("stored" if (e.get("adt") or "").endswith("SparqlDatabase") else None)
+        d = b.single_def(pl["l"])
+        if not d:
+            return None
+        if d[0] == "call" and d[2].args and d[2].name() in ("clone", "iter", "into_iter", "cloned", "copied", "map", "to_owned", "deref", "borrow", "as_ref"):
+            return src_of(d[2].args[0], depth + 1)
+        if d[0] == "assign":
+            for pp, kind in F.rv_places(d[3]):
+                for e in pp["p"]:
+                    if e["k"] == "field" and e.get("n") == "prefixes":
+                        return "request" if (e.get("adt") or "").endswith("CombinedQuery") else ("stored" if (e.get("adt") or "").endswith("SparqlDatabase") else None)
+                r = src_of({"k": "copy", "pl": pp}, depth + 1)
+                if r:
+                    return r
+        return None
+    if ret is not None:
+        events = []
+        for d in b.defs().get(ret, []):
+            if d[0] == "call" and d[2].args:
+                events.append((d[2].bb, src_of(d[2].args[0]) if d[2].name() == "clone" else None, d[2]))
+        for c in b.calls():
+            if c.name() in ("extend", "insert") and len(c.args) >= 2 and b.alias_root(c.args[0]) == ret:
+                srcs = {src_of(a) for a in c.args[1:]} - {None}
+                events.append((c.bb, "request" if "request" in srcs else ("stored" if "stored" in srcs else None), c))
+        reqs = [e for e in events if e[1] == "request"]
+        late = [e[2] for e in events if e[1] == "stored" and any(r[0] != e[0] and b.dominates(r[0], e[0]) for r in reqs)]
+        R.ob("C03-R8", "request-last", "no remembered prefix is written into the returned map after the request's declarations", not late,
+             where=b.where(late[0].ln if late else None))
